@@ -241,7 +241,12 @@ class Metadata(CbMixin, ProgMixin):
         self.meta_version = info.get("meta version", 1)
         self.pieces = info.get("pieces", bytes())
         if self.meta_version == 2:
-            self._parse_tree(info["file tree"], [self.name])
+            tree = info["file tree"]
+            if list(tree) == [self.name] and "" in tree[self.name]:
+                # single file torrent
+                self._parse_tree(tree, [])
+            else:
+                self._parse_tree(tree, [self.name])
         elif "length" in info:
             self.length += info["length"]
             self.is_file = True
@@ -331,8 +336,8 @@ class Metadata(CbMixin, ProgMixin):
         for key, val in tree.items():
             if "" in val:
                 self.filenames.add(key)
-                path = Path(os.path.join(*partials))
-                full = Path(os.path.join(path, key))
+                path = Path(*partials)
+                full = path / key
                 length = val[""]["length"]
                 root = val[""].get("pieces root")
                 self.files.append({
